@@ -10,6 +10,8 @@ import (
 	"os"
 	"path/filepath"
 	"regexp"
+	"runtime/debug"
+	"sort"
 	"strconv"
 	"strings"
 	"time"
@@ -66,6 +68,9 @@ func runTB(f func()) (escaped any) {
 		if r := recover(); r != nil {
 			if _, ok := r.(tbStop); !ok {
 				escaped = r
+				if os.Getenv("VERIF_STACK") != "" {
+					fmt.Fprintf(os.Stderr, "escaped panic: %v\n%s\n", r, debug.Stack())
+				}
 			}
 		}
 	}()
@@ -604,6 +609,96 @@ func cmdCheckOracle(args []string) {
 			}
 		}
 	}
+	// skipping by itself never fails a test: a property whose only event is a Skip - in the body or in a cleanup
+	// function, on some inputs - passes (or is reported as "only generated"), and is never presented as falsified
+	if *only < 0 || *only == 900002 {
+		for k, where := range []string{"body", "cleanup", "custom-cleanup"} {
+			g := rapid.IntRange(0, 9)
+			gc := rapid.Custom(func(t *rapid.T) int {
+				v := rapid.IntRange(0, 9).Draw(t, "c")
+				t.Cleanup(func() {
+					if v < 3 {
+						t.Skip("custom cleanup skips")
+					}
+				})
+				return v
+			})
+			prop := func(t *rapid.T) {
+				switch where {
+				case "body":
+					if g.Draw(t, "v") < 3 {
+						t.Skip("body skips")
+					}
+				case "cleanup":
+					v := g.Draw(t, "v")
+					t.Cleanup(func() {
+						if v < 3 {
+							t.Skip("cleanup skips")
+						}
+					})
+				default:
+					_ = gc.Draw(t, "c")
+				}
+			}
+			old := setFlags(50, (*seed+uint64(k))|1, 50*time.Millisecond, true)
+			tb := &recTB{name: "T"}
+			esc := runTB(func() { rapid.Check(tb, prop) })
+			rapid.VerifSetFlags(old)
+			verdict, valid, _, msg, _ := classifyTB(tb)
+			stats["skip_only_runs"]++
+			if esc != nil || verdict != "ok" || valid != 50 {
+				what := "a test case that merely skipped is presented as falsifying the property"
+				fails = append(fails, oracleFailure{"C11", what, "property that only skips (" + where + ") on a third of its inputs", 50, (*seed + uint64(k)) | 1, "50ms",
+					fmt.Sprintf("verdict=%s valid=%d msg=%q escaped=%v errors=%q", verdict, valid, msg, esc, tb.Errors), *seed, 900002, *prof})
+				fails = append(fails, oracleFailure{"C09", "a property that only skips on some inputs does not pass with N valid cases", "property that only skips (" + where + ") on a third of its inputs", 50, (*seed + uint64(k)) | 1, "50ms",
+					fmt.Sprintf("verdict=%s valid=%d msg=%q", verdict, valid, msg), *seed, 900002, *prof})
+			}
+		}
+	}
+	// a property may do what it likes with the values it drew: sorting a drawn permutation in place must not change
+	// what the generator produces later (reproduction would then differ: "flaky")
+	if *only < 0 || *only == 900004 {
+		src := []int{5, 3, 9, 1, 7}
+		orig := append([]int(nil), src...)
+		gp := rapid.Permutation(src)
+		gx := rapid.IntRange(0, 100)
+		prop := func(t *rapid.T) {
+			p := gp.Draw(t, "p")
+			first := p[0]
+			sort.Ints(p)
+			if x := gx.Draw(t, "x"); first == 5 && x > 20 {
+				t.Fatalf("boom %d", x)
+			}
+		}
+		for k := uint64(0); k < 3; k++ {
+			old := setFlags(100, (*seed+k)|1, 20*time.Millisecond, true)
+			tb := &recTB{name: "T"}
+			esc := runTB(func() { rapid.Check(tb, prop) })
+			rapid.VerifSetFlags(old)
+			verdict, _, _, msg, _ := classifyTB(tb)
+			stats["inplace_sort_runs"]++
+			if esc != nil || verdict == "flaky" || fmt.Sprint(src) != fmt.Sprint(orig) {
+				fails = append(fails, oracleFailure{"C01", "a deterministic property was called flaky", "Permutation([5 3 9 1 7]) sorted in place by the property, then IntRange(0,100)", 100, (*seed + k) | 1, "20ms",
+					fmt.Sprintf("verdict=%s msg=%q escaped=%v generator's input slice now %v", verdict, msg, esc, src), *seed, 900004, *prof})
+				break
+			}
+		}
+	}
+	// many large passing test cases in one run: every one of them is valid on its own, whatever ran before it
+	if *only < 0 || *only == 900003 {
+		gbig := rapid.SliceOfN(rapid.Uint16(), 50000, 60000)
+		prop := func(t *rapid.T) { _ = gbig.Draw(t, "s") }
+		old := setFlags(12, *seed|1, 0, true)
+		tb := &recTB{name: "T"}
+		esc := runTB(func() { rapid.Check(tb, prop) })
+		rapid.VerifSetFlags(old)
+		verdict, valid, _, msg, _ := classifyTB(tb)
+		stats["many_big_cases_runs"]++
+		if esc != nil || verdict != "ok" || valid != 12 {
+			fails = append(fails, oracleFailure{"C11", "a test case that is valid on its own is judged by what earlier test cases consumed", "12 passing cases of SliceOfN(Uint16(),50000,60000)", 12, *seed | 1, "0s",
+				fmt.Sprintf("verdict=%s valid=%d msg=%q escaped=%v errors=%q", verdict, valid, msg, esc, tb.Errors), *seed, 900003, *prof})
+		}
+	}
 	for i := 0; i < *n; i++ {
 		if *only >= 0 && i != *only {
 			continue
@@ -694,14 +789,22 @@ func cmdCheckOracle(args []string) {
 					add("C09", "passed with fewer valid cases than -rapid.checks", p, checks, base, sh, fmt.Sprint(o.Valid), i)
 				}
 				if anySignal {
-					add("C02", "a failure signal was lost: Check passed although an invocation signalled a failure", p, checks, base, sh, fmt.Sprintf("invocation %d: %s", firstSignal, runEndedHow(o.Runs[firstSignal])), i)
+					what := "a failure signal was lost: Check passed although an invocation signalled a failure"
+					if panicLostToCleanupDraw(o.Runs[firstSignal].Brk) {
+						what += ": a Custom generator function panicked and a cleanup function registered by it then ran out of data"
+					}
+					add("C02", what, p, checks, base, sh, fmt.Sprintf("invocation %d: %s", firstSignal, runEndedHow(o.Runs[firstSignal])), i)
 				}
 				if o.Failed {
 					add("C09", "OK logged but TB failed", p, checks, base, sh, "", i)
 				}
 			case "onlygen":
 				if anySignal {
-					add("C02", "a failure signal was lost: only-generated verdict although an invocation signalled", p, checks, base, sh, "", i)
+					what := "a failure signal was lost: only-generated verdict although an invocation signalled"
+					if panicLostToCleanupDraw(o.Runs[firstSignal].Brk) {
+						what += ": a Custom generator function panicked and a cleanup function registered by it then ran out of data"
+					}
+					add("C02", what, p, checks, base, sh, "", i)
 				}
 				if o.Total-o.Valid != checks*10 || o.Valid >= checks {
 					add("C09", "only-generated verdict with wrong counts", p, checks, base, sh, fmt.Sprintf("valid=%d total=%d", o.Valid, o.Total), i)
